@@ -66,7 +66,9 @@ func txKVs(c Cfg, done []Tx, t *Tx) []kv {
 				break
 			}
 		}
-		if pe == nil {
+		if pe == nil || pe.Del {
+			// a previous version that is itself a logical delete deleted its mapped key when it
+			// was indexed (and its value may be truncated away): nothing to add
 			continue
 		}
 		pk := c.TM.apply(sk, pe.Val)
